@@ -114,6 +114,9 @@ pub struct GenCfg {
     pub no_integral_floats: bool,
     /// prefer `append` and projections after it (C05's set-operation search)
     pub append_boost: bool,
+    /// step kinds the main pipeline generates first, in order (3 sort, 4 take, 8 window ...);
+    /// a kind that is not admissible at its turn ends the script
+    pub script: Vec<usize>,
 }
 
 impl GenCfg {
@@ -131,6 +134,7 @@ impl GenCfg {
             int_divf: true,
             no_integral_floats: false,
             append_boost: false,
+            script: vec![],
         }
     }
 }
@@ -2481,7 +2485,10 @@ impl<'t, 'd> Gen<'t, 'd> {
         // a reader of a sorted let-table that sorts again, takes a slice and then groups: the order
         // inherited from the let-table and the new one are both around when the take is emitted
         let mut nsteps = nsteps;
-        if scaffold.is_none() && !self.in_sub && use_let && ord.ordered && self.haz("sorted_let") && self.t.chance(1, 3) {
+        if scaffold.is_none() && !self.in_sub && !self.cfg.script.is_empty() {
+            self.forced = self.cfg.script.clone();
+            nsteps = nsteps.max(self.forced.len() + 1);
+        } else if scaffold.is_none() && !self.in_sub && use_let && ord.ordered && self.haz("sorted_let") && self.t.chance(1, 3) {
             self.forced = vec![3, 4, 7];
             nsteps = nsteps.max(3);
         }
